@@ -39,7 +39,7 @@ DynCount(b, t)  == Cardinality({i \in BlocksOf(b) : b[i].type = "dynamic" /\ Len
 
 \* ---- schemas -----------------------------------------------------------------------------
 NoExt == [count |-> FALSE, forEach |-> FALSE, dyn |-> FALSE]
-EmptyBodyS == [attrs |-> EmptyFn, blocks |-> EmptyFn, any |-> FALSE, ext |-> NoExt]
+EmptyBodyS == [attrs |-> EmptyFn, blocks |-> EmptyFn, any |-> FALSE, ext |-> NoExt, link |-> FALSE]
 PlainAttr(req) == [req |-> req, opt |-> ~req, comp |-> FALSE, dep |-> FALSE, depr |-> FALSE, dflt |-> Nil]
 
 \* dependencyKeysFromBlock: label keys in index order; stops at the first key label the block does not
@@ -90,9 +90,9 @@ Lookup(bs, blk) ==
 DynamicS(inputTypes, sourceBlocks) ==
   [labels |-> <<[dep |-> TRUE, comp |-> TRUE]>>, min |-> 0, max |-> 0, depr |-> FALSE,
    body |-> [attrs |-> [n \in {"for_each", "iterator", "labels"} |-> PlainAttr(n = "for_each")],
-             blocks |-> EmptyFn, any |-> FALSE, ext |-> NoExt],
+             blocks |-> EmptyFn, any |-> FALSE, ext |-> NoExt, link |-> FALSE],
    deps |-> SetToSeq({ [lk |-> << <<0, t>> >>, ak |-> <<>>,
-                        body |-> [attrs |-> EmptyFn, any |-> FALSE, ext |-> NoExt,
+                        body |-> [attrs |-> EmptyFn, any |-> FALSE, ext |-> NoExt, link |-> FALSE,
                                   blocks |-> [c \in {"content"} |-> [labels |-> <<>>, min |-> 1, max |-> 1, depr |-> FALSE, deps |-> <<>>,
                                                                      body |-> sourceBlocks[t].body]]]] : t \in inputTypes })]
 
@@ -204,6 +204,15 @@ NewItem(s, c) ==
 \* Accepting any candidate adds no "bad" diagnostic (positions of existing items are unchanged: the item is appended)
 AcceptSafe(s, b, pfx, unknown) ==
   \A c \in CandP(s, b, pfx) : BadOf(Diags(s, Append(b, NewItem(s, c)), <<>>, unknown)) \subseteq BadOf(Diags(s, b, <<>>, unknown))
+
+\* ---- documentation links (C16, last clause) --------------------------------------------------
+\* links of one top-level block: on every label and written attribute that selected a body having a link
+LinksP(bs, blk) ==
+  LET lk == Lookup(bs, blk) IN
+  IF lk.res \in {"Ok", "Partial"} /\ lk.body.link
+  THEN { <<"label", p[1]>> : p \in lk.keys[1] } \cup { <<"attr", p[1]>> : p \in {q \in lk.keys[2] : HasAttr(blk.body, q[1])} }
+  ELSE IF lk.res = "NoKeys" /\ bs.body # Nil /\ bs.body.link THEN {} \* no keys, nothing to attach a link to
+  ELSE {}
 
 \* ---- canonical schema keys (C16) ---------------------------------------------------------------
 \* schema.NewSchemaKey on a *listing* (sequence) of label pairs and attribute pairs: M sorts labels by index
